@@ -926,3 +926,142 @@ func init() {
 			return out
 		}})
 }
+
+// KERNELLEN — a vector kernel is not handed a part of a row whose length may be below its unrolling width.
+//
+// The kernels behind the SubRing methods process eight coefficients per step through `(*[8]uint64)(unsafe.Pointer(…))`
+// windows ("all inputs must have a size which is a multiple of 8"). A whole row has N >= 8 coefficients; a *half* row
+// (`p.Coeffs[i][:N/2]`) has 4 for the smallest accepted ring: the kernel then reads and writes four words past the
+// half (the other half in place, foreign memory for the last row).
+//
+// Rule: wherever a method of SubRing receives a slice expression with a bound (`x[:k]`, `x[k:]`) of a []uint64 row, the
+// enclosing function compares that bound (or the ring degree) with MinimumRingDegreeForLoopUnrolledOperations or the
+// literal 8 (the guard that selects a coefficient-wise fallback). Only bounds that are a fraction of a degree (`N>>1`,
+// `N/2`, directly or through a local) are concerned: a whole ring degree is at least 8 by construction.
+func scanKernelLen(c *core.Ctx) []ob {
+	var out []ob
+	n := 0
+	c.FuncDecls(func(pk *packages.Package, file *ast.File, fd *ast.FuncDecl) {
+		if fd.Body == nil || fileIsTestSupport(c.Program, fd.Pos()) || inExamples(pk) {
+			return
+		}
+		info := pk.TypesInfo
+		fkey := core.FuncKey(pk, fd)
+		guarded := false
+		ast.Inspect(fd.Body, func(x ast.Node) bool {
+			be, ok := x.(*ast.BinaryExpr)
+			if !ok {
+				return true
+			}
+			switch be.Op {
+			case token.LSS, token.LEQ, token.GTR, token.GEQ:
+				for _, side := range []ast.Expr{be.X, be.Y} {
+					s := exprString(side)
+					if strings.Contains(s, "MinimumRingDegreeForLoopUnrolled") {
+						guarded = true
+					}
+					if tv, ok := info.Types[side]; ok && tv.Value != nil && (tv.Value.ExactString() == "8" || tv.Value.ExactString() == "16") {
+						guarded = true
+					}
+				}
+			}
+			return true
+		})
+		var bad ast.Expr
+		sites := 0
+		ast.Inspect(fd.Body, func(x ast.Node) bool {
+			call, ok := x.(*ast.CallExpr)
+			if !ok {
+				return true
+			}
+			se, ok := unparen(call.Fun).(*ast.SelectorExpr)
+			if !ok {
+				return true
+			}
+			rt := info.TypeOf(se.X)
+			if rt == nil {
+				return true
+			}
+			if nt := namedOf(rt); nt == nil || nt.Obj().Name() != "SubRing" {
+				return true
+			}
+			for _, a := range call.Args {
+				sl, ok := unparen(a).(*ast.SliceExpr)
+				if !ok || (sl.Low == nil && sl.High == nil) {
+					continue
+				}
+				if t, ok := info.TypeOf(sl).Underlying().(*types.Slice); !ok || t.Elem().String() != "uint64" {
+					continue
+				}
+				// only a bound that is a *fraction* of a ring degree (N>>1, N/2, directly or through a local) can fall
+				// below the unrolling width: a whole ring degree is at least 8 by construction
+				fraction := false
+				for _, b := range []ast.Expr{sl.Low, sl.High} {
+					if b == nil {
+						continue
+					}
+					exprs := []ast.Expr{b}
+					if id, ok := unparen(b).(*ast.Ident); ok {
+						if ds := kernelLenDefs(info, fd, info.Uses[id]); len(ds) > 0 {
+							exprs = ds
+						}
+					}
+					for _, e := range exprs {
+						ast.Inspect(e, func(y ast.Node) bool {
+							if be, ok := y.(*ast.BinaryExpr); ok && (be.Op == token.SHR || be.Op == token.QUO) {
+								fraction = true
+							}
+							return true
+						})
+					}
+				}
+				sites++
+				if fraction && !guarded && bad == nil {
+					bad = sl
+				}
+			}
+			return true
+		})
+		if sites == 0 {
+			return
+		}
+		n++
+		key := "KERNELLEN:" + fkey
+		if bad != nil {
+			out = append(out, withProps(violOb("KERNELLEN", key, c.Rel(bad.Pos()), fmt.Sprintf("%s hands %s to a vector kernel (8 coefficients per step) without comparing the length of that part with the unrolling width: for the smallest accepted ring degree the part has 4 coefficients and the kernel runs 4 words past it", fkey, exprString(bad))), propsForKey(fkey)...))
+		} else {
+			out = append(out, withProps(okOb("KERNELLEN", key, c.Rel(fd.Pos()), "parts of rows handed to vector kernels are guarded by a test against the unrolling width", true), propsForKey(fkey)...))
+		}
+	})
+	c.Stats["kernellen_fns"] = n
+	return out
+}
+
+func init() {
+	core.Register(&core.Rule{Name: "KERNELLEN", Props: []string{"C01", "C02", "C06", "C07"},
+		Doc: "a function that hands a bounded part of a []uint64 row (x[:k], x[k:]) to a SubRing vector method compares the part's length (or the ring degree) with the unrolling width (MinimumRingDegreeForLoopUnrolledOperations / 8), unless the bounds are constants",
+		Run: func(c *core.Ctx) []ob {
+			out := scanKernelLen(c)
+			out = append(out, control(c, "KERNELLEN", scanKernelLen, "lvfixture.addHalves")...)
+			return out
+		}})
+}
+
+// kernelLenDefs: the right-hand sides of the assignments that define a local in fd.
+func kernelLenDefs(info *types.Info, fd *ast.FuncDecl, o types.Object) []ast.Expr {
+	var res []ast.Expr
+	if o == nil {
+		return nil
+	}
+	ast.Inspect(fd.Body, func(x ast.Node) bool {
+		if as, ok := x.(*ast.AssignStmt); ok && len(as.Lhs) == len(as.Rhs) {
+			for i, l := range as.Lhs {
+				if id, ok := l.(*ast.Ident); ok && (info.Defs[id] == o || info.Uses[id] == o) {
+					res = append(res, as.Rhs[i])
+				}
+			}
+		}
+		return true
+	})
+	return res
+}
